@@ -225,6 +225,10 @@ class LogarithmicInterrupts(ConstantInterrupts):
         b = self.dt_initial / (self.factor - 1)
         return a + b * self.factor**iteration
 
+    def initialize(self, t: float) -> float:
+        self.dt = self.dt_initial / self.factor  # forget the growth of previous runs
+        return super().initialize(t)
+
     def next(self, t: float) -> float:
         self.dt *= self.factor
         return super().next(t)
@@ -271,6 +275,7 @@ class GeometricInterrupts(InterruptsBase):
         return self.scale * self.factor**iteration
 
     def initialize(self, t: float) -> float:
+        self._t_next = None  # forget interrupts of previous runs
         return self.next(t)
 
     def next(self, t: float) -> float:
